@@ -4,7 +4,7 @@
    to the real model: string labels (injectivity of lbl proved here), option-valued retarget, the frame
    stack split at the function floor. *)
 From Coq Require Import Lia ZifyBool Arith.
-From BS Require Import Model.Base Model.Regex Model.Num Model.ExprParser Model.Script Model.Lower Proofs.BaseFacts Proofs.C07eq.
+From BS Require Import Model.Base Model.Regex Model.Num Model.ExprParser Model.Script Model.Lower Proofs.BaseFacts Proofs.C07eq Gen.Regexes Gen.Unicode.
 
 (* ================= A. generated label names are injective ================= *)
 Definition dec (l : str) (a : N) : N := fold_left (fun a d => (a * 10 + (d - 48))%N) l a.
@@ -989,4 +989,226 @@ Proof.
   - unfold lint_unknown in H. apply filter_In in H. destruct H as [R U]. apply labels_used_In, refs_pos_In in R.
     specialize (A R). assert (D : 1 <= defs l c) by lia. apply defs_pos_In, labels_defined_In, str_mem_In in D.
     rewrite D in U. discriminate.
+Qed.
+
+(* ================= F. the schema (statement level) ================= *)
+Lemma re_split_from_nonempty U r whole : forall fuel pos rest cur l,
+  re_split_from U r whole fuel pos rest cur = Some l -> l <> [].
+Proof.
+  induction fuel as [|f IH]; intros pos rest cur l H; cbn -[Nat.ltb skipn] in H.
+  - injection H as <-. discriminate.
+  - destruct rest as [|y t]; [injection H as <-; discriminate|].
+    destruct (m _ _ _ _ _ _ _) as [|p c|]; [eapply IH; eauto| |discriminate].
+    destruct (Nat.ltb pos p); [|eapply IH; eauto].
+    destruct (re_split_from U r whole f p _ []); cbn in H; [|discriminate]. injection H as <-. discriminate.
+Qed.
+Lemma re_split_nonempty U r s l : re_split U r s = Some l -> l <> [].
+Proof. apply re_split_from_nonempty. Qed.
+
+Definition kind_args_ok (k : line_kind) : bool :=
+  match k with KFnBegin _ (ROk (Some [])) _ _ => false | _ => true end.
+
+Ltac cls H := first [discriminate H | injection H as <-; reflexivity].
+Lemma classify_args_ok n line k : classify n line = ROk k -> kind_args_ok k = true.
+Proof.
+  unfold classify. intros H.
+  destruct (rxm R_SCRIPT_ASSIGNMENT line); [|destruct (stmt_expr _ _ _ _); cls H|cls H].
+  destruct (rxm R_SCRIPT_FUNCTION_BEGIN line) as [|ep c|]; [| |cls H].
+  2:{ injection H as <-. unfold kind_args_ok. destruct (ghas c R_SCRIPT_FUNCTION_BEGIN__args); [|reflexivity].
+      destruct (re_split UC R_SCRIPT_FUNCTION_ARG_SPLIT (gtext line c R_SCRIPT_FUNCTION_BEGIN__args)) as [[|a l]|] eqn:E; try reflexivity.
+      apply re_split_nonempty in E. congruence. }
+  destruct (rxm R_SCRIPT_FUNCTION_END line); [|cls H|cls H].
+  destruct (rxm R_SCRIPT_IF_BEGIN line); [|destruct (stmt_expr _ _ _ _); cls H|cls H].
+  destruct (rxm R_SCRIPT_IF_ELSE_IF line); [|cls H|cls H].
+  destruct (rxm R_SCRIPT_IF_ELSE line); [|cls H|cls H].
+  destruct (rxm R_SCRIPT_IF_END line); [|cls H|cls H].
+  destruct (rxm R_SCRIPT_WHILE_BEGIN line); [|destruct (stmt_expr _ _ _ _); cls H|cls H].
+  destruct (rxm R_SCRIPT_WHILE_END line); [|cls H|cls H].
+  destruct (rxm R_SCRIPT_FOR_BEGIN line); [|destruct (stmt_expr _ _ _ _); cls H|cls H].
+  destruct (rxm R_SCRIPT_FOR_END line); [|cls H|cls H].
+  destruct (rxm R_SCRIPT_BREAK line); [|cls H|cls H].
+  destruct (rxm R_SCRIPT_CONTINUE line); [|cls H|cls H].
+  destruct (rxm R_SCRIPT_LABEL line); [|cls H|cls H].
+  destruct (rxm R_SCRIPT_JUMP line) as [|ep c|];
+    [|destruct (gtext line c R_SCRIPT_JUMP__expr); [cls H|destruct (stmt_expr _ _ _ _); cls H]|cls H].
+  destruct (rxm R_SCRIPT_RETURN line) as [|ep c|];
+    [|destruct (gtext line c R_SCRIPT_RETURN__expr); [cls H|destruct (stmt_expr _ _ _ _); cls H]|cls H].
+  destruct (rxm R_SCRIPT_INCLUDE line).
+  - destruct (rxm R_SCRIPT_INCLUDE_SYSTEM line); [|cls H|cls H].
+    destruct (parse_expression line); cls H.
+  - destruct (unesc _ _); cls H.
+  - cls H.
+Qed.
+
+Definition frame_schema (f : frame) : Prop :=
+  match f with FWhile _ _ _ e _ _ _ => expr_schema e = true | _ => True end.
+
+Definition st_schema (ps : pstate) : Prop :=
+  forallb stmt_schema (cur_stmts ps) = true /\
+  match ps_fn ps with Some fo => script_schema (ps_global ps) = true /\ fo_args fo <> Some [] | None => True end /\
+  Forall frame_schema (ps_frames ps).
+
+Lemma st_schema_put ps o' fr' n' : st_schema ps -> forallb stmt_schema o' = true -> Forall frame_schema fr' ->
+  st_schema (put ps o' fr' n').
+Proof. destruct ps as [g [fo|] fd fr ix]; unfold st_schema; cbn; intros (A & B & C) Ho Hf; auto. Qed.
+
+Lemma if_nil_cons {A} (b : bool) (l : list A) x r : (if b then l else []) = x :: r -> l = x :: r.
+Proof. destruct b; [auto|discriminate]. Qed.
+
+Lemma find_loop_In : forall fs k0 k f, find_loop fs k0 = Some (k, f) -> In f fs.
+Proof.
+  induction fs as [|x fs IH]; cbn; intros k0 k f H; [discriminate|].
+  destruct (is_if_frame x); [right; eapply IH; eauto|injection H as _ <-; auto].
+Qed.
+Lemma Forall_set_nth (P : frame -> Prop) g : forall fs k, Forall P fs -> P g -> Forall P (set_nth_frame fs k g).
+Proof.
+  induction fs as [|x fs IH]; intros [|k] F Hg; cbn; auto; inversion F; subst; constructor; auto.
+Qed.
+
+Lemma retarget_schema d : forall c pos c', retarget pos d c = Some c' -> forallb stmt_schema c = true -> forallb stmt_schema c' = true.
+Proof.
+  induction c as [|s c IH]; intros [|p] c' H S; rewrite ?retarget_nil, ?retarget_S, ?retarget_0 in H; try discriminate.
+  - destruct s; try discriminate. injection H as <-. exact S.
+  - destruct (retarget p d c) as [c0|] eqn:E; [|discriminate]. injection H as <-. cbn in *.
+    apply andb_true_iff in S. destruct S as [S1 S2]. rewrite S1. cbn. eapply IH; eauto.
+Qed.
+
+Theorem kstep_schema ps lineno line k ps' :
+  kind_schema k = true -> kind_args_ok k = true -> st_schema ps -> kstep ps lineno line k = ROk ps' -> st_schema ps'.
+Proof.
+  intros Hk Ha HS H. pose proof HS as (So & Sg & Sf).
+  assert (APP : forall add, forallb stmt_schema add = true -> forallb stmt_schema (cur_stmts ps ++ add) = true)
+    by (intros add Hadd; rewrite forallb_app, So, Hadd; reflexivity).
+  destruct k as [nm e|nm args asy la| |e|re| | |e| |vn ixn e| | | |name|name cnd|e|url sys|e]; cbn [kstep kind_schema kind_args_ok] in H, Hk, Ha.
+  - rok H. rewrite put_emit. apply st_schema_put; auto. apply APP. cbn. rewrite Hk. reflexivity.
+  - destruct (ps_fn ps) eqn:Efn; [discriminate|]. destruct args as [a| | |]; try discriminate. rok H.
+    unfold st_schema, cur_stmts in *. rewrite Efn in *. cbn. repeat split; auto. intros ->. discriminate.
+  - destruct (ps_fn ps) as [fo|] eqn:Efn; [|discriminate].
+    destruct (Nat.ltb (ps_fn_depth ps) (length (ps_frames ps))); [destruct (ps_frames ps); discriminate|]. rok H.
+    unfold st_schema, cur_stmts in *. rewrite Efn in *. cbn. destruct Sg as [Sg Sa]. repeat split; auto.
+    unfold script_schema in *. rewrite forallb_app, Sg. cbn. rewrite So. destruct (fo_args fo) as [[|]|]; try reflexivity. congruence.
+  - rok H. rewrite put_emit, put_set_frames, put_bump. apply st_schema_put; auto; try (apply APP; cbn; rewrite ?Hk; reflexivity); try (constructor; [first [exact I | assumption]|auto]).
+  - destruct (if Nat.ltb (depth_floor ps) (length (ps_frames ps)) then ps_frames ps else []) as [|[pos p d [|] ln lno| |] rest] eqn:E; try discriminate.
+    apply if_nil_cons in E. destruct re as [e| | |]; try discriminate. rok H.
+    rewrite put_emit, put_set_frames, put_bump. rewrite E in Sf. inversion Sf; subst.
+    apply st_schema_put; auto; try (apply APP; cbn; rewrite ?Hk; reflexivity); try (constructor; [first [exact I | assumption]|auto]).
+  - destruct (if Nat.ltb (depth_floor ps) (length (ps_frames ps)) then ps_frames ps else []) as [|[pos p d [|] ln lno| |] rest] eqn:E; try discriminate.
+    apply if_nil_cons in E. rok H.
+    rewrite put_emit, put_set_frames. apply st_schema_put; auto.
+    rewrite E in Sf. inversion Sf; subst. constructor; [exact I|auto].
+  - destruct (if Nat.ltb (depth_floor ps) (length (ps_frames ps)) then ps_frames ps else []) as [|[pos p d he ln lno| |] rest] eqn:E; try discriminate.
+    apply if_nil_cons in E. rewrite E in Sf. inversion Sf; subst.
+    destruct he.
+    + rok H. rewrite put_set_stmts, put_set_frames. apply st_schema_put; auto.
+    + destruct (retarget pos d (cur_stmts ps)) as [o'|] eqn:R; [|discriminate]. rok H.
+      rewrite put_set_stmts, put_set_frames. apply st_schema_put; auto.
+      rewrite forallb_app. erewrite retarget_schema; eauto.
+  - rok H. rewrite put_emit, put_set_frames, put_bump. apply st_schema_put; auto; try (apply APP; cbn; rewrite ?Hk; reflexivity); try (constructor; [first [exact I | assumption]|auto]).
+  - destruct (Nat.leb _ _); [discriminate|]. destruct (ps_frames ps) as [|[|l c d e hc ln lno|] rest] eqn:E; try discriminate. rok H.
+    inversion Sf; subst. rewrite put_emit, put_set_frames. apply st_schema_put; auto.
+    apply APP. cbn in *. rewrite H1. reflexivity.
+  - rok H. rewrite put_emit, put_set_frames, put_bump. apply st_schema_put; auto; try (apply APP; cbn; rewrite ?Hk; reflexivity); try (constructor; [first [exact I | assumption]|auto]).
+  - destruct (Nat.leb _ _); [discriminate|]. destruct (ps_frames ps) as [|[| |l c d ix vs len v hc ln lno] rest] eqn:E; try discriminate. rok H.
+    inversion Sf; subst. rewrite put_emit, put_set_frames. apply st_schema_put; auto.
+    apply APP. destruct hc; reflexivity.
+  - destruct (find_loop (ps_frames ps) 0) as [[k f]|] eqn:E; [|discriminate].
+    destruct (Nat.ltb _ _); [discriminate|]. rok H. rewrite put_emit. apply st_schema_put; auto.
+  - destruct (find_loop (ps_frames ps) 0) as [[k f]|] eqn:E; [|discriminate].
+    destruct (Nat.ltb _ _); [discriminate|]. rok H. rewrite put_emit_set_frames. apply st_schema_put; auto.
+    apply Forall_set_nth; auto. apply find_loop_In in E. rewrite Forall_forall in Sf. specialize (Sf _ E).
+    destruct f; cbn in *; auto.
+  - rok H. rewrite put_emit. apply st_schema_put; auto.
+  - rok H. rewrite put_emit. apply st_schema_put; auto. apply APP. cbn. rewrite Hk. reflexivity.
+  - rok H. rewrite put_emit. apply st_schema_put; auto. apply APP. cbn. rewrite Hk. reflexivity.
+  - destruct (last_is_include (cur_stmts ps)) as [[front incs]|] eqn:E; rok H.
+    + apply last_is_include_spec in E. rewrite put_set_stmts. apply st_schema_put; auto.
+      rewrite E, forallb_app in So. apply andb_true_iff in So. destruct So as [So _].
+      rewrite forallb_app, So. cbn. destruct incs; reflexivity.
+    + rewrite put_emit. apply st_schema_put; auto.
+  - rok H. rewrite put_emit. apply st_schema_put; auto. apply APP. cbn. rewrite Hk. reflexivity.
+Qed.
+
+Lemma st_schema_init : st_schema ps_init.
+Proof. unfold st_schema. cbn. auto. Qed.
+
+Lemma pstep_schema ps n line ps' : line_schema n line = true -> st_schema ps -> pstep ps n line = ROk ps' -> st_schema ps'.
+Proof.
+  intros Hc HI H. rewrite pstep_classify in H. unfold line_schema in Hc.
+  destruct (classify n line) as [k| | |] eqn:E; try discriminate. cbn in H.
+  eapply kstep_schema; eauto. eapply classify_args_ok; eauto.
+Qed.
+
+Lemma ploop_schema : forall lines ix ls ps start ls' ps',
+  forallb (fun il => line_schema (start + fst il) (snd il)) (logical_lines lines ix ls) = true ->
+  st_schema ps -> ploop lines ix ls ps start = ROk (ls', ps') -> st_schema ps'.
+Proof.
+  induction lines as [|part rest IH]; intros ix ls ps start ls' ps' Hc HI H; cbn in H, Hc.
+  - injection H as _ <-. exact HI.
+  - destruct (lstep ls ix part) as [st|st ixl line|bad].
+    + eapply IH; eauto.
+    + cbn in Hc. apply andb_true_iff in Hc. destruct Hc as [Hc1 Hc2].
+      destruct (pstep ps (start + ixl) line) as [ps1| | |] eqn:E; try discriminate.
+      eapply IH; [exact Hc2| |exact H]. eapply pstep_schema; eauto.
+    + destruct bad; discriminate.
+Qed.
+
+Theorem parse_script_schema chunks start code :
+  parse_script chunks start = ROk code -> user_exprs_schema chunks start = true -> script_schema code = true.
+Proof.
+  unfold parse_script, user_exprs_schema, script_lines. intros H Hc.
+  destruct (split_chunks chunks) as [lines| | |]; try discriminate.
+  destruct (ploop lines 0 _ ps_init start) as [[ls ps]| | |] eqn:E; try discriminate.
+  pose proof (ploop_schema _ _ _ _ _ _ _ Hc st_schema_init E) as (So & Sg & Sf).
+  unfold pfinish in H. destruct (l_cont ls); [|discriminate].
+  destruct (ps_frames ps) eqn:Efr; [|discriminate]. destruct (ps_fn ps) eqn:Efn; [discriminate|]. injection H as <-.
+  unfold cur_stmts in So. rewrite Efn in So. exact So.
+Qed.
+
+(* ================= G. statements in the vocabulary of Script.v ================= *)
+Definition LABEL_PREFIXES : list str := [L_If; L_Done; L_Loop; L_Continue].
+
+Lemma lbl_inj P n P' n' : In P LABEL_PREFIXES -> In P' LABEL_PREFIXES -> lbl P n = lbl P' n' -> P = P' /\ n = n'.
+Proof.
+  intros HP HP' H.
+  assert (EP : exists k, P = pfx k) by (cbn in HP; destruct HP as [<-|[<-|[<-|[<-|[]]]]]; [exists KdIf|exists KdDone|exists KdLoop|exists KdCont]; reflexivity).
+  assert (EP' : exists k, P' = pfx k) by (cbn in HP'; destruct HP' as [<-|[<-|[<-|[<-|[]]]]]; [exists KdIf|exists KdDone|exists KdLoop|exists KdCont]; reflexivity).
+  destruct EP as [k ->], EP' as [k' ->]. apply (glbl_inj k n k' n') in H. destruct H as [-> ->]. auto.
+Qed.
+
+Lemma lbl_reserved P n : In P LABEL_PREFIXES -> reserved (lbl P n) = true.
+Proof. intros HP. cbn in HP. destruct HP as [<-|[<-|[<-|[<-|[]]]]]; reflexivity. Qed.
+
+(* the model's endif never fails to find the pending jump it has to retarget *)
+Lemma endif_finds_its_jump ps n line w : PInv ps -> kstep ps n line KEndif <> RHost w.
+Proof.
+  intros (top & bot & Hfr & Hlen & HI & _) H. cbn [kstep] in H. rewrite (visible_top ps top bot Hfr Hlen) in H.
+  destruct top as [|[pos p d [|] ln lno| |] top]; try discriminate.
+  pose proof (inv_fok _ _ _ HI) as F. inversion F as [|? ? Ff F']; subst. cbn in Ff. destruct Ff as (_ & _ & _ & cnd & Hn).
+  destruct (retarget_some d p cnd _ _ Hn) as [c' R]. rewrite R in H. discriminate.
+Qed.
+
+Theorem parse_script_scopes_wf chunks start code :
+  parse_script chunks start = ROk code -> user_clean chunks start = true ->
+  forall c, is_scope code c -> forall l, reserved l = true ->
+    (1 <= refs l c -> defs l c = 1) /\ (1 <= defs l c -> 1 <= refs l c).
+Proof. intros H Hc c Hs. eapply script_wf_scope; [eapply parse_script_wf; eauto|exact Hs]. Qed.
+
+Theorem parse_script_wfb chunks start code :
+  parse_script chunks start = ROk code -> user_clean chunks start = true -> script_wfb code = true.
+Proof. intros H Hc. apply script_wfb_iff. eapply parse_script_wf; eauto. Qed.
+
+Theorem parse_script_no_unknown_label chunks start code :
+  parse_script chunks start = ROk code -> user_clean chunks start = true ->
+  forall c l cnd, is_scope code c -> In (SJump l cnd) c -> reserved l = true -> exists j, find_first_label l c 0 = Some j.
+Proof.
+  intros H Hc c l cnd Hs Hin Hr. eapply scope_wf_jump_resolves; eauto.
+  eapply script_wf_scope; [eapply parse_script_wf; eauto|exact Hs].
+Qed.
+
+Theorem parse_script_lint_quiet chunks start code :
+  parse_script chunks start = ROk code -> user_clean chunks start = true ->
+  forall c l, is_scope code c -> In l (lint_labels c) -> reserved l = false.
+Proof.
+  intros H Hc c l Hs Hin. eapply scope_wf_lint_quiet; eauto.
+  eapply script_wf_scope; [eapply parse_script_wf; eauto|exact Hs].
 Qed.
